@@ -160,6 +160,13 @@ class C08(fw.Prop):
                         variants.append((f"proof;{fsc};9;emptyaad,1,{klen},{MT},9", 0))
                     variants.append((f"proof;{sc};10;mac,1,{klen},{MT},9,{sc},2,{klen},{chal}", 0))           # counter field altered
                     variants.append((f"proof;{sc + 64};9;mac,1,{klen},{MT},9,{sc},2,{klen},{chal}", 0))       # security control altered
+                    # every single-bit alteration of the proof's own security-control byte and counter field (the proof is inside the
+                    # ciphered answer: these are alterations made before it was sealed), the tag being that of the genuine values
+                    for bit in range(8):
+                        if (sc ^ (1 << bit), 0) != (sc + 64, 0):
+                            variants.append((f"proof;{sc ^ (1 << bit)};9;mac,1,{klen},{MT},9,{sc},2,{klen},{chal}", 0))
+                    for bit in (range(32) if deep else (0, 3, 8, 31)):
+                        variants.append((f"proof;{sc};{9 ^ (1 << bit)};mac,1,{klen},{MT},9,{sc},2,{klen},{chal}", 0))
                     variants.append((f"proof;{sc};9;mac,3,{klen},{MT},9,{sc},2,{klen},{chal}", 0))            # wrong key
                     variants.append((f"proof;{sc};9;mac,1,{klen},{MT},9,{sc},4,{klen},{chal}", 0))            # wrong authentication key
                     variants.append((f"proof;{sc};9;mac,1,{klen},5858580000000009,9,{sc},2,{klen},{chal}", 0))  # wrong title
